@@ -57,7 +57,17 @@ def foreign_job(rng, deep=False):
     rest = [x for x in dl[1:] if x not in empties[:1]]
     if rest:
         after.append({"op": "removeall", "name": "/" + rest[0]})
-    return {"config": {"rs": rng.choice([1, 3, 20]), "cache": "file"}, "blobs": blobs, "format": fmt, "style": style, "entries": entries, "spell": spell, "after": after}
+    job = {"config": {"rs": rng.choice([1, 3, 20]), "cache": "file"}, "blobs": blobs, "format": fmt, "style": style, "entries": entries, "spell": spell, "after": after}
+    # an original member removed and created again, and a new directory removed and made again, each under one of the
+    # equivalent spellings of its path (the index keeps the removed row: the re-creation has to find it whatever the spelling)
+    left = sorted(p for p, v in apply_after(expected_tree(job), job).items() if v[0] == "f" and not p.startswith("/zz-new"))
+    if left:
+        f = rng.choice(left)
+        sp = rng.choice(["/%s", "%s", "./%s"]) % f.lstrip("/")
+        after += [{"op": "remove", "name": f}, {"op": "createfile", "name": sp, "blob": len(blobs) - 1}]
+    sp = rng.choice(["/%s", "%s", "./%s"]) % "zz-new/sub"
+    after += [{"op": "mkdir", "name": "/zz-new/sub", "perm": 0o755}, {"op": "remove", "name": "/zz-new/sub"}, {"op": "mkdir", "name": sp, "perm": 0o700}]
+    return job
 
 
 def run_job(j):
@@ -110,7 +120,7 @@ def apply_after(exp, job):
     exp = dict(exp)
     bl = job["blobs"]
     for c in job["after"]:
-        n = c["name"]
+        n = oracles.absname(c["name"])
         if c["op"] == "mkdir":
             exp[n] = ("d", 0)
         elif c["op"] == "createfile":
